@@ -2,14 +2,14 @@
 From Coq Require Import List NArith Bool.
 From Frugal Require Import Bytes Wire Skip Values Desc Spec Encode Decode Checks Tags State Bitset Alloc DescMap Conc LegacyDefs.
 From Frugal.gen Require Import Params.
-From Frugal.proofs Require Import GenParams Corollaries BitsetProofs.
+From Frugal.proofs Require Import GenDecParams Corollaries BitsetProofs.
 From Frugal.props Require Import Examples.
 Import ListNotations.
 
 (* decoding a well-formed message fails with the required-field error naming field i exactly when
    the reference decoder finds i missing -- at any nesting level -- ... *)
 Theorem C09_error_names_field : forall env pool sid fs rest dst i,
-  params_ok = true -> env_ok env = true -> wf (WStruct fs []) = true ->
+  dec_params_ok = true -> env_ok env = true -> wf (WStruct fs []) = true ->
   (need env (TStruct sid) (WStruct fs []) <= S (N.to_nat maxDepthLimit))%nat ->
   (skipped_depth env (TStruct sid) (WStruct fs []) <= 63)%nat ->
   absorb_top env sid (WStruct fs []) dst = AMissing i <->
@@ -20,7 +20,7 @@ Print Assumptions C09_error_names_field.
 (* ... and at the level where it happens, i is the lowest required id that does not occur with its
    declared wire type; when none is missing decoding is not rejected on that account *)
 Theorem C09_required_enforced : forall env pool sid sd fs rest fs0 h0 cur seen unk,
-  params_ok = true -> env_ok env = true -> wf (WStruct fs []) = true -> lookup_sd env sid = Some sd ->
+  dec_params_ok = true -> env_ok env = true -> wf (WStruct fs []) = true -> lookup_sd env sid = Some sd ->
   (need env (TStruct sid) (WStruct fs []) <= S (N.to_nat maxDepthLimit))%nat ->
   (skipped_depth env (TStruct sid) (WStruct fs []) <= 63)%nat ->
   ab_fields (absorb env) sd fs fs0 [] [] = AOk (cur, seen, unk) ->
@@ -54,5 +54,5 @@ Proof. split; vm_compute; reflexivity. Qed.
 
 (* the side conditions on the generated constants and tables that the theorems above assume hold
    for what the translator read from the sources of this run *)
-Theorem C09_side_conditions : params_ok = true.
-Proof. exact params_ok_holds. Qed.
+Theorem C09_side_conditions : dec_params_ok = true.
+Proof. exact dec_params_ok_holds. Qed.
